@@ -321,4 +321,33 @@ def AgreesL (h : Nat → T) (F : Nat → Prop) : List T → Prop
   | t :: ts => Agrees h F t ∧ AgreesL h F ts
 end
 
+mutual
+/-- `Consistent h F t` — `Agrees` without its acyclicity clauses: every shared object of `t` is the
+    object the heap `h` holds at its address, and back edges only target closures being filled.
+    `Proofs.consistent_agrees` derives the acyclicity (`addr ∉ addrsL kids`) from this: a finite term
+    cannot contain, unfolded, the object it is itself an unfolding of. -/
+def Consistent (h : Nat → T) (F : Nat → Prop) : T → Prop
+  | .atom _ => True
+  | .node addr uniq s ks => (uniq = false → h addr = .node addr uniq s ks) ∧ ConsistentL h F ks
+  | .clo addr s pre post =>
+    h addr = .clo addr s pre post ∧ ConsistentL h F pre ∧
+      ConsistentL h (fun x => F x ∨ x = addr) post
+  | .ptr addr s => F addr ∧ (h addr).sort = s
+def ConsistentL (h : Nat → T) (F : Nat → Prop) : List T → Prop
+  | [] => True
+  | t :: ts => Consistent h F t ∧ ConsistentL h F ts
+end
+
+mutual
+/-- Number of constructors of the term. -/
+def size : T → Nat
+  | .atom _ => 1
+  | .node _ _ _ ks => 1 + sizeL ks
+  | .clo _ _ pre post => 1 + sizeL pre + sizeL post
+  | .ptr _ _ => 1
+def sizeL : List T → Nat
+  | [] => 0
+  | t :: ts => size t + sizeL ts
+end
+
 end GluonModel.Share
